@@ -11,6 +11,12 @@ CLAIMED = {
              note="Trusted: th.PathHolder / copy.deepcopy contracts; pyvc; z3.", ref="DESIGN.md 4.3"),
  "C08": dict(text="Exception freedom: every primitive operation with a raise condition inside the functions under contract yields an obligation that the condition is excluded by the path condition, for arbitrary symbolic values (any kind, incl. nan/inf/huge/opaque).",
              note="Objects whose own special methods raise are outside the domain (as the property says). Trusted: raise conditions of the builtin models.", ref="DESIGN.md 4.8"),
+ "C10": dict(text="Every declaration method under contract has an exact contract (raises DeclarationError iff RAISE(view, args); otherwise returns a schema whose registry is the receiver's updated by UPDATE) proved against its real body for arbitrary argument objects, plus the class invariant Reach_T (well-formed kinds, mutual exclusions, the fixed value conforms to the schema itself) - which covers chains of any length.",
+             note="Under contract so far: Bool/Int/Float/Str/Bytes/UUID4/DateTime/Date declaration methods; List/Dict/Any pending. make_*_error helpers are assumed (trusted) to return a DeclarationError. Known finding: NaN in float declarations.",
+             ref="DESIGN.md 4.10"),
+ "C11": dict(text="Pairwise commutation lemma over the exact contracts of the refinement methods (each proved against its body): both orders raise, or both yield the same registry, from every reachable state; adjacent transpositions generate all permutations, so no bound on the number of refinements.",
+             note="Int/Float/Str refinements; ListSchema.len pending. The adjacent-transposition argument is a paper argument over machine-checked pairwise obligations.",
+             ref="DESIGN.md 4.11"),
 }
 PENDING = "contracts for this property are not built yet (build in progress; see DESIGN.md section 8)"
 m = {"version": 1, "setup_cmd": "true",
